@@ -1407,6 +1407,22 @@ example : (List.range 5).map (fun a => qbinOccupancy [5, 1, 4, 2, 3, 7, 6] 3 (In
 example : (List.range 5).map (fun a => qbinOccupancy [5, 1, 4, 2, 3] 4 (Int.ofNat a)) =
     [2, 2, 1, 0, 0] := by decide +kernel
 
+/-- the hypothesis of `model_partial_correlation_total` is satisfiable: these two series are not
+collinear (the elimination succeeds on their covariance matrix) -/
+example : ∀ v : Nat → Rat,
+    (∀ t, t < 3 → combCentred (fun a t => ([[1, 2, 4], [1, 0, 1]].getD a []).getD t 0) 3 2 v t = 0) →
+      ∀ l, l < 2 → v l = 0 := by
+  intro v hv l hl
+  by_contra hne
+  have hnone := (partial_correlation_fails_iff_collinear 3 2 _).mpr ⟨v, ⟨l, hl, hne⟩, hv⟩
+  have hk : gjKernel (fun a b => covTo 3
+      ((fun a t => ([[1, 2, 4], [1, 0, 1]].getD a []).getD t (0 : Rat)) a)
+      ((fun a t => ([[1, 2, 4], [1, 0, 1]].getD a []).getD t (0 : Rat)) b)) 2 = none := by
+    decide +kernel
+  have := (gjKernel_dichotomy _ 2).mp hk
+  rw [hnone] at this
+  cases this
+
 /-! ## Round 5: the result of the elimination is a two-sided inverse -/
 
 /-- **two-sided** (closes "`gjInverse_correct` is the left inverse only"): for every matrix `C`,
@@ -1504,6 +1520,17 @@ theorem gjInverse_relabel (C : Nat → Nat → Rat) (N : Nat) (π : Nat → Nat)
   obtain ⟨P', hP'⟩ := Option.isSome_iff_exists.mp hs
   exact ⟨P', hP', fun i j hi hj =>
     (gjInverse_unique _ N P' (fun a b => P (π a) (π b)) hP' hQ i j hi hj).symm⟩
+
+example : PermOn (fun k => [2, 0, 1].getD k k) 3 := by
+  constructor
+  · intro s hs
+    have h1 : s = 0 ∨ s = 1 ∨ s = 2 := by omega
+    rcases h1 with rfl | rfl | rfl <;> decide
+  · intro s s' hs hs' e
+    have h1 : s = 0 ∨ s = 1 ∨ s = 2 := by omega
+    have h2 : s' = 0 ∨ s' = 1 ∨ s' = 2 := by omega
+    rcases h1 with rfl | rfl | rfl <;> rcases h2 with rfl | rfl | rfl <;>
+      first | rfl | (exfalso; revert e; decide)
 
 /-- **"permuted consistently when series are reordered", for the partial correlation**: for every
 reordering `π` of the `N` series, if the model has a value on the data it has one on the reordered
